@@ -37,6 +37,38 @@ def case(fam, geometry, rep):
                     rb = R(mesh, only_surface=only_surface, ensure_3d=ensure_3d)
                     built[(only_surface, ensure_3d)] = rb
                     run.configs.add(str((fam, geometry, only_surface, ensure_3d)))
+            # other admissible constructions of the same regions (each judged by the hook like the default ones):
+            # boundary rules of other orders, 3d vectors on request, a mask together with them
+            for o in ((2, 3) if run.tier == "quick" else (2, 3, 4)):
+                R(mesh, quadrature=fem.GaussLegendreBoundary(order=o, dim=dim), only_surface=bool(o % 2))
+                run.units[fam + ":quadrature-order=%d" % o] += 1
+            if dim == 3:
+                R(mesh, ensure_3d=True)
+            edge = np.isclose(mesh.points[:, 0], mesh.points[:, 0].min()) | (rng.uniform(size=mesh.npoints) < 0.5)
+            R(mesh, mask=edge, ensure_3d=True, only_surface=False)
+            if fam in ("quad", "hexahedron"):
+                # cells numbered from another corner / with another local orientation (still positive), a body with a re-entrant
+                # corner (one cell removed), a single cell
+                perm = [1, 2, 3, 0] if fam == "quad" else [1, 5, 6, 2, 0, 4, 7, 3]
+                c2 = mesh.cells.copy()
+                c2[::2] = c2[::2][:, perm]
+                m2 = fem.Mesh(mesh.points, c2, mesh.cell_type)
+                for s_ in (True, False):
+                    R(m2, only_surface=s_)
+                m3 = fem.Mesh(mesh.points, mesh.cells[1:], mesh.cell_type)
+                if m3.ncells:
+                    keep = np.unique(m3.cells)
+                    remap = -np.ones(mesh.npoints, int)
+                    remap[keep] = np.arange(len(keep))
+                    m3 = fem.Mesh(mesh.points[keep], remap[m3.cells], mesh.cell_type)
+                    R(m3)
+                m1 = fem.Mesh(mesh.points[mesh.cells[0]], np.arange(mesh.cells.shape[1]).reshape(1, -1), mesh.cell_type)
+                r1a, r1b = R(m1, only_surface=True), R(m1, only_surface=False)
+                if len(r1a.mesh.cells) == len(r1b.mesh.cells) == (4 if dim == 2 else 6):
+                    run.ok("boundary.surface-selection", unit=fam + ":single-cell")
+                else:
+                    run.fail("boundary.surface-selection", "celltype=%s clause=single-cell" % fam, "a single cell does not have all its faces on the surface")
+                run.units[fam + ":renumbered+re-entrant"] += 1
             # surface selection == faces that occur exactly once among all faces
             allf = built[(False, False)]
             cnt = {}
